@@ -8,7 +8,7 @@ import itertools
 from ..cfg import CFG
 from ..astutil import inside
 from ..core import callee_is, AnalysisError, const_value, walk_own
-from ..tutil import EvUnknown, ev_term, lin, seq_parts, simp
+from ..tutil import EvUnknown, ev_term, lin, map_term, seq_parts, simp
 from ..defuse import DefUse, Terms, show, walk_term
 from ..defuse import key as tkey
 from ..memo import check_no_cross_call_state
@@ -61,6 +61,10 @@ def _sites(ctx, f):
     rnode, t = rets[0]
     p_seq = f.params[0]
     parts = seq_parts(t)
+    if parts is None:
+        raise AnalysisError(
+            f"{f.qual}: the list of sites is built in a form rule C17b "
+            f"does not read: {show(t, 120)}")
     ok = parts is not None and len(parts) == 3
     why = show(t, 200)
     if ok:
@@ -70,7 +74,24 @@ def _sites(ctx, f):
                                     (("param", p_seq),), ()))
         ok_mid = False
         if mid[0] == "each":
-            elt, it = mid[1], mid[2]
+            elt, it0 = mid[1], mid[2]
+            it = it0
+            # the same call on either of two pattern objects is one call on
+            # "either pattern"; re.finditer(P, s) is P.finditer(s)
+            if it[0] == "phi" and it[1] and all(
+                    y[0] == "mcall" and y[2:] == it[1][0][2:]
+                    for y in it[1]):
+                it = ("mcall", ("phi", tuple(y[1] for y in it[1])),
+                      ) + tuple(it[1][0][2:])
+            elif it[0] == "call" and it[1] == "re.finditer" and \
+                    len(it[2]) == 2 and not it[3]:
+                it = ("mcall", it[2][0], "finditer", (it[2][1],), ())
+            if not (it[0] == "mcall" and it[2] in ("finditer",)):
+                raise AnalysisError(
+                    f"{f.qual}: the cleavage sites are searched with "
+                    f"{show(it, 100)}, a form rule C17b does not read")
+            elt = map_term(elt, lambda x: ("elem", it)
+                           if x == ("elem", it0) else x)
             whole = (it[0] == "mcall" and it[2] == "finditer"
                      and it[3] == (("param", p_seq),) and not it[4])
             ends = elt[0] == "mcall" and elt[2] == "end" and not elt[3] \
@@ -598,18 +619,53 @@ def _digest(ctx, f):
                   "and enzyme", f"sites = {show(st, 100) if st else None}",
                   node=rnode)
     ctx.floor("C17c-returns", len(rets), 1)
-    # read_fasta passes its options through
+    # read_fasta passes its options through (judged on the bound argument
+    # terms: keyword / positional / a dictionary of options spread with **)
+    from ..proto import Calls
+    from ..tutil import bound_args
+    from ..paths import var_leaves
     rf = prog.func(FA + "read_fasta")
-    calls = [n for n in ast.walk(rf.node) if isinstance(n, ast.Call)
-             and callee_is(prog, rf, n, "digest")]
-    ctx.require(len(calls) == 1, f"{rf.qual}: digest call not found")
-    b = prog.bind(f, calls[0])
+    rdu = DefUse(prog, rf)
+    rT = Terms(rdu, phi_vars=True)
+    dcalls = Calls(prog, rf, du=rdu, T=rT, cfg=CFG(rf.node)).calls(f.qual)
+    ctx.require(len(dcalls) == 1, f"{rf.qual}: digest call not found")
+    b = bound_args(prog, dcalls[0][0])
+    ctx.require(b is not None, f"{rf.qual}: the arguments of the digest "
+                "call cannot be bound to its parameters")
     exp = {"missed_cleavages": "missed_cleavages", "min_length":
            "min_length", "max_length": "max_length", "semi": "semi",
-           "clip_nterm_methionine": "clip_nterm_methionine",
-           "enzyme_regex": "enzyme_regex"}
+           "clip_nterm_methionine": "clip_nterm_methionine"}
     for formal, src in exp.items():
-        got = ast.unparse(b[formal]) if formal in b else None
-        ctx.check(got == src, "C17c-read-fasta-routing", rf,
+        got = b.get(formal)
+        ctx.check(got == ("param", src), "C17c-read-fasta-routing", rf,
                   f"digest({formal}=...) <- read_fasta's {src}",
-                  f"{formal} = {got}", node=calls[0])
+                  f"{formal} = {show(got, 60) if got else None}",
+                  node=dcalls[0][1])
+    # the enzyme: the caller's compiled pattern as it is, or the caller's
+    # string compiled
+    got = b.get("enzyme_regex")
+    alts = []
+
+    def _alts(x):
+        if x[0] == "phi":
+            for y in x[1]:
+                _alts(y)
+        elif x[0] == "ifexp":
+            _alts(x[2])
+            _alts(x[3])
+        elif x[0] == "var":
+            for y in var_leaves(rdu, rT, x):
+                _alts(y) if y != x else alts.append(y)
+        else:
+            alts.append(x)
+    if got is not None:
+        _alts(got)
+    P_E = ("param", "enzyme")
+    ok_e = bool(alts) and all(a == P_E or (
+        a[0] == "call" and a[1] == "re.compile" and a[2][:1] == (P_E,))
+        for a in alts)
+    ctx.check(ok_e, "C17c-read-fasta-routing", rf,
+              "digest(enzyme_regex=...) <- read_fasta's enzyme (compiled "
+              "when it is a string)",
+              f"enzyme_regex = {show(got, 100) if got else None}",
+              node=dcalls[0][1])
